@@ -195,6 +195,13 @@ def assigned_names(stmts):
 
 
 def havoc_like(v, name):
+    from .symexec import PyObjV
+
+    if isinstance(v, PyObjV) or (name == "res" and isinstance(v, bool)):
+        t, f, u = dsl.fresh_bool(name + "_truthy"), dsl.fresh_bool(name + "_isFalse"), dsl.fresh_bool(name + "_isTrue")
+        o = PyObjV(t, f, u)
+        o.facts = And(Implies(f, Not(t)), Implies(u, t))
+        return o
     if isinstance(v, Num):
         if v.is_int:
             return dsl.fresh_int(name)
@@ -276,6 +283,8 @@ class LoopSpec(object):
         for nm in names:
             if nm in h.locals:
                 h.locals[nm] = havoc_like(h.locals[nm], nm)
+                if getattr(h.locals[nm], "facts", None) is not None:
+                    h.assume(h.locals[nm].facts)
             elif nm in self.local_types:
                 h.locals[nm] = make_arg(self.local_types[nm], nm)
         ctx = LoopCtx(ex, entry, h, i, n, "head", owner=owner)
@@ -334,18 +343,26 @@ class LoopSpec(object):
             if isinstance(it, _Raised):
                 out.append((s0, Outcome("raise", exc=it.exc)))
                 continue
-            if not isinstance(it, ListV):
+            dateseq = type(it).__name__ == "DateSeqV"
+            if not isinstance(it, ListV) and not dateseq:
                 raise Undecided("for-loop over %r in %s" % (it, fn))
             if not isinstance(node.target, ast.Name):
                 raise Undecided("for-loop target")
-            n = s0.heap.list_len(it.owner, it.field)
+            if dateseq:
+                from .ext_algos import idxlen_c
+
+                n = Num(z3.If(idxlen_c - it.offset >= 0, idxlen_c - it.offset, 0), False, True)
+                it_owner = None
+            else:
+                n = s0.heap.list_len(it.owner, it.field)
+                it_owner = it.owner
             s0.assume(n.r >= 0)
             entry = s0.fork()
             # 1. invariant holds initially
-            ctx0 = LoopCtx(ex, entry, s0, Num.lift(0), n, "init", owner=it.owner)
+            ctx0 = LoopCtx(ex, entry, s0, Num.lift(0), n, "init", owner=it_owner)
             self._check_inv(ex, ctx0, s0, "init", fn, k)
             # 2. arbitrary iteration
-            h, i, ctx, framed = self._havoc(ex, node, s0, entry, n, owner=it.owner)
+            h, i, ctx, framed = self._havoc(ex, node, s0, entry, n, owner=it_owner)
             self._plain_havoc = set(x for x in self.havoc_heap(ctx) if not isinstance(x, tuple))
             h.assume(And(i.r >= 0, i.r <= n.r))
             self._assume_inv(ex, ctx, h)
@@ -359,13 +376,16 @@ class LoopSpec(object):
             hb = h.fork()
             if ex.feasible(hb, i.r < n.r):
                 hb.assume(i.r < n.r)
-                c = hb.heap.list_at(it.owner, it.field, i, self.elem_cls)
+                if dateseq:
+                    c = ex.index_facts_pos(hb, i + it.offset)
+                else:
+                    c = hb.heap.list_at(it.owner, it.field, i, self.elem_cls)
                 hb.locals[node.target.id] = c
                 if self.on_iter:
-                    self.on_iter(LoopCtx(ex, entry, hb, i, n, "head", owner=it.owner), c)
+                    self.on_iter(LoopCtx(ex, entry, hb, i, n, "head", owner=it_owner), c)
                 for (s2, oc) in ex.exec_block(node.body, hb):
                     if oc.kind in ("normal", "continue"):
-                        ctx2 = LoopCtx(ex, entry, s2, i + 1, n, "step", head=head, owner=it.owner)
+                        ctx2 = LoopCtx(ex, entry, s2, i + 1, n, "step", head=head, owner=it_owner)
                         self._check_inv(ex, ctx2, s2, "step", fn, k)
                         self._frame_obligs(ex, s2, entry, framed, i + 1, fn, k)
                         # path ends here (cut); keep it only for its obligations
